@@ -244,6 +244,8 @@ class CallMixin:
             return FunV('builtin', qual=name)
         if name == 'utils':
             return ModuleV('mouette.utils')
+        if name == 'geom' and st.module and st.module.startswith('mouette.'):
+            return ModuleV('mouette.geometry')       # `from .. import geometry as geom`
         # module-local, then unique global
         ci = self.index.resolve_class(name, st.module)
         if ci is not None:
@@ -268,6 +270,21 @@ class CallMixin:
         key = m.name + '.' + attr
         if key in self.external_fns:
             return FunV('builtin', qual=key)
+        if m.name == 'mouette.geometry':
+            fi = self.index.resolve_fn(attr, 'mouette.geometry.geometry')
+            if fi is not None:
+                return FunV('qual', qual=fi.qual)
+        if m.name == 'scipy':
+            # `import scipy.sparse as sp`: library constructors with a *trusted* contract in the specs (assumption A-scipy)
+            q = 'scipy.sparse.' + attr
+            spec = REG.fns.get(q)
+            if spec is not None and spec.trusted:
+                if q not in self.index.fns:
+                    from .source import FnInfo
+                    src = 'def %s(%s): pass' % (attr, ', '.join(n if i == 0 else n + '=None' for i, n in enumerate(spec.params)))
+                    self.index.fns[q] = FnInfo(q, ast.parse(src).body[0], 'scipy.sparse', None, '<external>')
+                self.externals_used.add('%s (trusted contract in specs: %s)' % (q, spec.note or ''))
+                return FunV('qual', qual=q)
         if m.name == 'mouette.config':
             return self.config_flag(attr, st)
         if m.name == 'mouette.utils' and attr in self.external_names:
